@@ -250,7 +250,7 @@ def _walk_jobs(ctx, shapes):
         with open(os.path.join(d, cfg), "w") as fh:
             fh.write(_cfg(shape, sim=True, depth=depth))
         thunks.append(lambda d=d, cfg=cfg, num=num, depth=depth, i=i, shape=shape: core.run_tlc(
-            d, "Sim_DKGExec", cfg, workers=1, timeout=300, simulate="num=%d" % shape.get("simnum", 2 * num + 2), depth=depth + 5,
+            d, "Sim_DKGExec", cfg, workers=1, timeout=300 if ctx.quick else 1500, simulate="num=%d" % shape.get("simnum", 2 * num + 2), depth=depth + 5,
             seed=ctx.seed * 101 + i))
     return thunks
 
@@ -306,7 +306,7 @@ def run(ctx, monitors):
                   (_with(SWAP, name="swapoff", offline=[3]), 3, 220), (LATE3, 4, 170), (LATE4, 3, 300),
                   (_with(RESHARE3, name="reshare3atomic", ag=True, ae=True), 8, 40),
                   (_with(ADD, name="addatomic", ag=True, ae=True), 6, 40),
-                  (_with(ADDDROP, simnum=800), 21, 150), (_with(LATE4DROP, simnum=500), 6, 170),
+                  (_with(ADDDROP, simnum=600), 21, 150), (_with(LATE4DROP, simnum=300), 6, 170),
                   (_with(SWAP, name="swapdrop", ag=True, drop=1, cover=("D", "R"), simnum=500, tmin=TMIN, tmax=TMIN), 8, 150),
                   (_with(FIRST4, name="first4drop", ag=True, drop=1, cover=("D", "R"), simnum=400, tmin=TMIN, tmax=TMIN), 6, 150)]
     # 1. design level (exhaustive) and 2. behaviour generation run side by side, while the test
